@@ -72,17 +72,19 @@ func (s *Sink) Write(p []byte) (int, error) {
 
 // Source is an io.Reader over Data whose read pattern is driven by a schedule.
 type Source struct {
-	Data     []byte
-	Pos      int
-	Calls    int
-	Chunks   []int // cyclic list of maximum chunk sizes; 0 = a (0, nil) read; empty = whatever fits
-	EOFWith  bool  // return io.EOF together with the last bytes
-	FailAt   int   // 1-based call index that fails with ErrInjected; 0 = never
-	Sticky   bool
-	Failed   int
-	Hook     func()
-	FailWith error // the error returned by the failing call (default ErrInjected)
-	zeroRun  int
+	Data      []byte
+	Pos       int
+	Calls     int
+	Chunks    []int // cyclic list of maximum chunk sizes; 0 = a (0, nil) read; empty = whatever fits
+	EOFWith   bool  // return io.EOF together with the last bytes
+	FailAt    int   // 1-based call index that fails with ErrInjected; 0 = never
+	Sticky    bool
+	Failed    int
+	Hook      func()
+	FailWith  error // the error returned by the failing call (default ErrInjected)
+	ZeroBurst int   // > 0: before every chunk of data, this many consecutive (0, nil) reads (legal, if discouraged, for an io.Reader)
+	zeroRun   int
+	burst     int
 }
 
 func (s *Source) Read(p []byte) (int, error) {
@@ -100,6 +102,11 @@ func (s *Source) Read(p []byte) (int, error) {
 	if len(p) == 0 {
 		return 0, nil
 	}
+	if s.ZeroBurst > 0 && s.burst < s.ZeroBurst {
+		s.burst++
+		return 0, nil
+	}
+	s.burst = 0
 	if s.Pos >= len(s.Data) {
 		return 0, io.EOF
 	}
